@@ -149,12 +149,15 @@ def handler(info, itf, evt, side, port, client_expr='""'):
     ret, kind = info.reply_cpp(itf, evt)
     params = ', '.join(info.formal_cpp(itf, f) + ('&' if f['dir'] != 'in' else '') + f' a{i}' for i, f in enumerate(evt['formals']))
     ins = ', '.join(f'verif::val(a{i})' for i, f in enumerate(evt['formals']) if f['dir'] in ('in', 'inout'))
-    body = [f'verif::entry e{{"{side}", "{port}", "{evt["name"]}", verif::ctx_name(), {client_expr}, {{{ins}}}, {{}}, 0, false}};']
+    body = ['verif::hscope hs_;',
+            f'verif::entry e{{"{side}", "{port}", "{evt["name"]}", verif::ctx_name(), {client_expr}, {{{ins}}}, {{}}, 0, false}};']
     for i, frm in enumerate(evt['formals']):
         if frm['dir'] != 'in':
             body.append(f'a{i} = verif::mk<{info.formal_cpp(itf, frm)}>(verif::next_out()); e.outs.push_back(verif::val(a{i}));')
     if ret != 'void':
         body.append(f'e.reply = verif::reply_for("{port}", "{evt["name"]}");')
+    else:
+        body.append(f'(void)verif::reply_for("{port}", "{evt["name"]}");')     # lets the mock arbiter see releases
     body.append('verif::record(e);')
     body.append(f'verif::yield_point("handler/{side}/{port}/{evt["name"]}");')
     if ret != 'void':
@@ -269,7 +272,7 @@ static bool quiet()
   dzn::pump* p = the_pump();
   return s.clients_active - s.shell_waiting - s.parked <= 0 && !(p && p->running());
 }
-static bool wait_quiet(int ms = 20000)
+static bool wait_quiet(int ms = 4000)
 {
   verif::state& s = verif::S();
   auto deadline = std::chrono::steady_clock::now() + std::chrono::milliseconds(ms);
@@ -287,6 +290,7 @@ static bool wait_quiet(int ms = 20000)
 }
 static std::map<const void*, std::string> waiting_names;
 
+static bool abort_on_stuck = true;
 static void report(const std::string& cmd, const std::string& res)
 {
   bool q = wait_quiet();
@@ -317,6 +321,11 @@ static void report(const std::string& cmd, const std::string& res)
   s.results.clear();
   o << "}}";
   std::cout << o.str() << std::endl;
+  if (!q && abort_on_stuck)       // a thread keeps running or is stuck: nothing after this point is meaningful
+  {
+    std::cout << "{\"cmd\":\"STUCK\"}" << std::endl;
+    std::_Exit(0);
+  }
 }
 
 static std::string exc_json(const std::exception& ex, const char* type)
@@ -330,6 +339,7 @@ static std::string exc_json(const std::exception& ex, const char* type)
 
 static void finish(const std::string& who, const std::string& json)
 {
+  dzn::verif::hscope hs_;
   verif::state& s = verif::S();
   std::unique_lock<std::mutex> lock(s.m);
   s.results[who] = json;
@@ -345,28 +355,46 @@ static void spawn(const std::string& who, std::function<std::string()> body)
     std::string r;
     try { r = body(); }
     CATCH_ALL(r)
+    dzn::verif::hscope hs_;
     finish(who, r);
   });
 }
 '''
 
 DRIVER_MAIN = r'''
+#ifdef VERIF_LOCK_YIELD
+// Every lock operation performed by generated/support code (i.e. outside harness scopes) is a yield point "lock":
+// the scheduler sees how many critical sections a step of the generated code consists of.
+#include <dlfcn.h>
+extern "C" int pthread_mutex_lock(pthread_mutex_t* m)
+{
+  typedef int (*fn_t)(pthread_mutex_t*);
+  static fn_t real = nullptr;
+  if (!real) { ++dzn::verif::harness_depth(); real = (fn_t)dlsym(RTLD_NEXT, "pthread_mutex_lock"); --dzn::verif::harness_depth(); }
+  if (dzn::verif::harness_depth() == 0) { dzn::verif::hscope hs_; verif::yield_point("lock"); }
+  return real(m);
+}
+#endif
 int main(int argc, char** argv)
 {
+  dzn::verif::harness_depth() = 1;        // the main thread is the scheduler: never a yield point
   std::ios::sync_with_stdio(true);
   if (argc > 1 && std::string(argv[1]) == "free") dzn::verif::free_running() = true;
   auto& h = dzn::verif::the_hooks();
   h.shell_enter = [](const void* tok) {
+    dzn::verif::hscope hs_;
     verif::yield_point("shell-enter");
     verif::state& s = verif::S(); std::unique_lock<std::mutex> lock(s.m);
     waiting_names[tok] = verif::tname; };
   // the caller counts as blocked only once its closure is in the dispatcher queue (so that a quiescent
   // snapshot never sees a blocked caller whose closure is not queued yet)
   h.on_post = [](bool from_shell) {
+    dzn::verif::hscope hs_;
     if (!from_shell) return;
     verif::state& s = verif::S(); std::unique_lock<std::mutex> lock(s.m);
     ++s.shell_waiting; s.cv.notify_all(); };
   h.shell_done = [](const void* tok) {
+    dzn::verif::hscope hs_;
     verif::state& s = verif::S(); std::unique_lock<std::mutex> lock(s.m);
     --s.shell_waiting; waiting_names.erase(tok); s.cv.notify_all(); };
   h.closure_begin = [] { verif::yield_point("closure"); };
@@ -388,7 +416,7 @@ int main(int argc, char** argv)
       if (bits[2] == '1') user_loc.set(other_service);
       auto before = user_loc.verif_contents();
       COMP::last() = nullptr;
-      { verif::state& s = verif::S(); std::unique_lock<std::mutex> lock(s.m); s.out_counter = 0; s.script.clear(); }
+      { verif::state& s = verif::S(); std::unique_lock<std::mutex> lock(s.m); s.out_counter = 0; s.script.clear(); s.arbiter.clear(); }
       try {
         sh.reset(new SHELL(CTORARGS));
         COMP* c = COMP::last();
@@ -420,7 +448,15 @@ int main(int argc, char** argv)
       CATCH_ALL(res)
     }
     else if (cmd == "script") { std::string p, e; int v; in >> p >> e >> v; verif::S().script[p + "." + e] = v; res = "{\"ok\":true}"; }
-    else if (cmd == "yielding") { int v; in >> v; verif::S().yielding = v != 0; res = "{\"ok\":true}"; }
+    else if (cmd == "yielding") { int v; in >> v; verif::state& s = verif::S(); std::unique_lock<std::mutex> lock(s.m);
+          s.yielding = v != 0; s.yield_at.clear(); std::string pre; while (in >> pre) s.yield_at.push_back(pre); res = "{\"ok\":true}"; }
+    else if (cmd == "arbiter") { std::string port, claim, release; int g, d; in >> port >> claim >> release >> g >> d;
+          verif::state& s = verif::S(); std::unique_lock<std::mutex> lock(s.m); s.arbiter[port] = {claim, release, g, d, false}; res = "{\"ok\":true}"; }
+    else if (cmd == "try") { std::string who; int ms; in >> who >> ms; bool had;
+          { verif::state& s = verif::S(); std::unique_lock<std::mutex> lock(s.m); had = s.at.count(who) > 0; if (had) s.go.insert(who); s.cv.notify_all(); }
+          bool q = had && wait_quiet(ms);
+          res = std::string("{\"ok\":") + (had ? "true" : "false") + ",\"progressed\":" + (q ? "true" : "false") + "}";
+          std::cout << "{\"cmd\":" << verif::json_str(line) << ",\"res\":" << res << ",\"nowait\":true}" << std::endl; continue; }
     else if (cmd == "go") { std::string who; in >> who; { verif::state& s = verif::S(); std::unique_lock<std::mutex> lock(s.m);
           if (s.at.count(who)) { s.go.insert(who); res = "{\"ok\":true}"; } else res = "{\"ok\":false}"; s.cv.notify_all(); }
           if (res == "{\"ok\":true}") { verif::state& s = verif::S(); std::unique_lock<std::mutex> lock(s.m);
@@ -467,7 +503,7 @@ def call_code(info, prt, evt, port_expr, who_expr='who'):
 def driver_source(info, shell_hh):
     comp = cpp_fqn(info.enc['fqn'])
     has_mc = any(p['mc'] for p in info.ports)
-    log_decl = (f'{info.prefix_ns}::ILog the_log = {{ [](const std::string& m) {{ verif::yield_point("log/" + m); }}, '
+    log_decl = (f'{info.prefix_ns}::ILog the_log = {{ [](const std::string& m) {{ dzn::verif::hscope hs_; verif::yield_point("log/" + m); }}, '
                 '[](const std::string&) {}, [](const std::string&) {} };') if has_mc else 'int the_log = 0;'
     ctor = 'user_loc' + (', the_log' if has_mc else '') + ', "inst"'
     out = [f'#include "{shell_hh}"', '#include "verif_rt.hh"',
@@ -552,6 +588,35 @@ def driver_source(info, shell_hh):
     disp.append('    else if (cmd == "comp") { std::string who, port, event; in >> who >> port >> event; std::vector<int> a; int v; '
                 'while (in >> v) a.push_back(v); bool found = false;\n' + '\n'.join(inner) +
                 '\n      if (!found) res = "{\\"ok\\":false,\\"what\\":\\"no such event\\"}"; }')
+    mcp = next((p for p in info.ports if p['mc']), None)
+    if mcp is not None:
+        itf = mcp['itf']
+        claim = next(e for e in itf['events'] if e['name'] == info.mc['claim'])
+        release = next(e for e in itf['events'] if e['name'] == info.mc['release'])
+        outev = next((e for e in itf['events'] if e['dir'] == 'out'), None)
+
+        def direct_call(evt, port_expr, tag):
+            decl, args = [], []
+            for i, frm in enumerate(evt['formals']):
+                typ = info.formal_cpp(itf, frm)
+                decl.append(f'{typ} {tag}{i} = verif::mk<{typ}>(1);')
+                args.append(f'{tag}{i}')
+            return ' '.join(decl), f'{port_expr}.{evt["dir"]}.{evt["name"]}({", ".join(args)})'
+        cdecl, ccall = direct_call(claim, 'p', 'c')
+        rdecl, rcall = direct_call(release, 'p', 'r')
+        raise_code = ''
+        if outev is not None:
+            odecl, ocall = direct_call(outev, f'{comp}::last()->{mcp["name"]}', 'o')
+            raise_code = (f'ts.emplace_back([=] {{ for (int i = 0; i < iters * 2; ++i) {{ the_pump()->operator()([] {{ {odecl} {ocall}; }}); '
+                          'std::this_thread::yield(); } });')
+        disp.append('    else if (cmd == "stress") { int iters; in >> iters; int grant; in >> grant; '
+                    f'auto ids = sh->Get{cap(mcp["name"])}ClientIdentifiers(); std::vector<std::thread> ts; std::atomic<int> granted{{0}}; '
+                    'for (auto id : ids) ts.emplace_back([=, &granted] { verif::tname = "stress-" + id; for (int i = 0; i < iters; ++i) { '
+                    f'auto& p = sh->{info.accessor(mcp)}(id).port; {cdecl} {rdecl} '
+                    f'if (static_cast<int>({ccall}) == grant) {{ ++granted; {rcall}; }} }} }}); '
+                    f'{raise_code} for (auto& t : ts) t.join(); '
+                    'for (int k = 0; k < 2000 && the_pump()->queued() > 0; ++k) std::this_thread::sleep_for(std::chrono::milliseconds(1)); '
+                    'res = std::string("{\\"ok\\":true,\\"granted\\":") + std::to_string(granted.load()) + ",\\"clients\\":" + std::to_string(ids.size()) + "}"; }')
     out.append(DRIVER_MAIN.replace('SHELL', info.shell_fqn).replace('COMP', comp).replace('CTORARGS', ctor)
                .replace('DISPATCH', '\n'.join(disp)))
     return '\n'.join(out)
